@@ -276,10 +276,6 @@ fn sweep<D: Dom>(ctx: &Ctx, dom: &str, fam: Vec<D>, class: &(dyn Fn(&D, &D, &D::
 where
     D::Real: std::fmt::Debug,
 {
-    if std::env::var("C03_COUNT_ONLY").is_ok() {
-        eprintln!("[C03] {dom}: {} values, {} ordered pairs", fam.len(), fam.len() * fam.len());
-        return;
-    }
     let fam: Vec<Pre<D>> = fam.into_iter().map(pre).collect();
     let n = fam.len() as u64;
     ctx.stat(&format!("{dom}: family size"), n);
@@ -552,12 +548,10 @@ fn main() {
     let th = ctx.thorough();
 
     // ---- oracle self check
-    let check_fam = iv_family(false);
     match self_check_interval_gamma(&intervals(1, &[-128, -127, -5, -1, 0, 1, 2, 3, 4, 6, 8, 9, 12, 100, 126, 127], 300)) {
         Ok(n) => ctx.stat("oracle self check: interval inclusion by members vs symbolic, pairs", n),
         Err(e) => mcx::machinery(&e),
     }
-    drop(check_fam);
 
     // ---- (a) BitvectorDomain: Top and every 1-byte value; a few 8-byte values
     let mut fam: Vec<BvSpec> = std::iter::once(BvSpec { w: 1, v: None }).chain((0..256).map(|v| BvSpec { w: 1, v: Some(v) })).collect();
